@@ -248,7 +248,7 @@ impl Property for C16 {
     }
     fn budget(&self, tier: Tier) -> u64 {
         match tier {
-            Tier::Quick => 3_000,
+            Tier::Quick => 10_000,
             Tier::Thorough => 300_000,
         }
     }
